@@ -1510,7 +1510,9 @@ func (t *itype) assignableTo(o *itype) bool {
 		return t.val.id() == o.val.id()
 	}
 
-	if t.cat == linkedT && o.cat == linkedT && (t.underlying().id() != o.underlying().id() || !typeDefined(t, o)) {
+	if t.name != "" && o.name != "" && t.cat != valueT && o.cat != valueT && !t.untyped && !o.untyped && !isInterface(t) && !isInterface(o) && t.id() != o.id() {
+		// Two defined types are different types, even when one is defined from the
+		// other or when both have the same underlying type.
 		return false
 	}
 
